@@ -1,0 +1,1 @@
+//! Hooks for property C43 (empty unless needed).
